@@ -206,6 +206,15 @@ class HSFZConnection:
 
         return await self._read_queue.get()
 
+    def _requeue(self, frames: list[HSFZDiagFrame]) -> None:
+        # The skipped frames arrived before everything that is still in the queue,
+        # so they go back in front of it to preserve the order of arrival.
+        later: list[HSFZDiagFrame | int] = []
+        while not self._read_queue.empty():
+            later.append(self._read_queue.get_nowait())
+        for item in [*frames, *later]:
+            self._read_queue.put_nowait(item)
+
     async def read_diag_request(self) -> bytes:
         unexpected_packets = []
         while True:
@@ -224,8 +233,7 @@ class HSFZConnection:
                 continue
 
             # We do not want to consume packets that we were not expecting; add them to queue again
-            for item in unexpected_packets:
-                await self._read_queue.put(item)
+            self._requeue(unexpected_packets)
 
             return data
 
@@ -253,8 +261,7 @@ class HSFZConnection:
                 continue
 
             # We do not want to consume packets that we were not expecting; add them to queue again
-            for item in unexpected_packets:
-                await self._read_queue.put(item)
+            self._requeue(unexpected_packets)
 
             return
 
